@@ -4,6 +4,7 @@ package vm
 import (
 	"math/big"
 
+	"github.com/nspcc-dev/neo-go/pkg/smartcontract/scparser"
 	"github.com/nspcc-dev/neo-go/pkg/vm/opcode"
 	"github.com/nspcc-dev/neo-go/pkg/vm/stackitem"
 	"github.com/nspcc-dev/neo-go/pkg/vm/vmstate"
@@ -18,6 +19,10 @@ func vhTotalRun(nsym int, steps int) {
 	script := append([]byte{}, vfBytes("script", nsym)...)
 	// tail: operand material for multi-byte instructions, then a normal end
 	script = append(script, 0x01, 0x00, byte(opcode.PUSH2), byte(opcode.NOP), byte(opcode.RET))
+	if steps == 1 {
+		// the instruction decoder shared with the static script check must answer, not panic
+		_, _, _ = scparser.NewContext(script, 0).Next()
+	}
 	v := New()
 	v.LoadScript(script)
 	memo := map[*rvItem]stackitem.Item{}
@@ -60,6 +65,16 @@ func vhTotalRun(nsym int, steps int) {
 //vf:bound every script of 2 arbitrary bytes followed by the fixed tail 01 00 PUSH2 NOP RET, run for up to 8 instructions over a stack of six items (struct sharing an array, the array, a buffer, a 2-byte string with a symbolic first byte < 40, the integers -3 and 2 (arithmetic on symbolic operands is C13's subject))
 func VF_C12_total_on_arbitrary_bytes_2() {
 	vhTotalRun(2, 8)
+}
+
+//vf:tier quick
+//vf:bigint theory
+//vf:unwind 300
+//vf:symindex fork
+//vf:wall 400
+//vf:bound the first instruction of a script of 5 arbitrary bytes (any opcode with any 1..4 operand or length bytes) followed by the fixed tail, one step, same stack; the script parser's decoder (used by the static check) run on the same bytes must not panic either
+func VF_C12_total_first_instruction_any_operand() {
+	vhTotalRun(5, 1)
 }
 
 //vf:tier thorough
